@@ -616,70 +616,104 @@ def upconverter_ops(rng, aw=32, origin=0):
         ("r", 4, 2),
     ]]
 
-# Change 1: BURST_READ issues its commands from the single down-counter cmd_ready_count
-# (cmd_ready_seen register removed, only accepted commands are counted).
+# Change 2: the first beat of a write burst is accepted (pushed to the command / data FIFOs) while
+# the FSM is still in START, instead of spending one cycle to enter BURST_WRITE first; the latched
+# beat counter and address are adjusted accordingly.
 #
-# The change must not alter a single output of the bridge: every scenario is run on the modified
-# bridge and on the frozen reference with identical stimulus and compared cycle by cycle; the
-# modified bridge is also checked against the golden memory model (property C11).
+# Timing differs from the reference by design, so:
+#   - every run of the modified bridge is checked against the golden memory model (property C11),
+#   - the same accesses are run on the frozen reference and the *sequences* of native commands,
+#     native write data, read beats and the final memory are compared (events, not cycles),
+#   - with an ideal memory, no Avalon beat is accepted later than on the reference and every write
+#     burst is accepted one cycle earlier.
 
 def job(args):
-    name, cfg, st, seed, ops = args
-    dut = Run(LiteDRAMAvalonMM2Native, cfg, st, seed, ops, trace=True).run()
-    ref = Run(RefAvalonMM2Native,      cfg, st, seed, ops, trace=True).run()
-    ok  = check_golden(dut)
-    ok &= check_golden(ref, what="ref")
-    ok &= check_lockstep(dut, ref)
-    n_r = sum(1 for op in ops if op[0] == "r" and op[2] > 1)
-    return ok, "{:<18} seed={} {} accesses ({} read bursts), {} cycles".format(name, seed, len(ops), n_r, dut.cycle)
+    name, cfg, st, seed, ops, increment = args
+    dut = Run(LiteDRAMAvalonMM2Native, cfg, st, seed, ops).run()
+    ok  = check_golden(dut, increment=increment)
+    msg = "{:<20} seed={} {} accesses, {} cycles".format(name, seed, len(ops), dut.cycle)
+    if not name.startswith("up"):
+        # (The up-converter merges commands depending on their timing: no event comparison.)
+        ref = Run(RefAvalonMM2Native, cfg, st, seed, ops).run()
+        ok &= check_golden(ref, increment=increment, what="ref")
+        ok &= check_same_events(dut, ref)
+        msg += " (reference {})".format(ref.cycle)
+        if name.startswith("ideal"):
+            # Deterministic timing: never later, first beat of each burst write a cycle earlier.
+            gain = [r[0] - d[0] for d, r in zip(dut.accepts, ref.accepts)]
+            n_wb = sum(1 for op in ops if op[0] == "w" and len(op[2]) > 1)
+            if min(gain) < 0 or (n_wb and max(gain) < 1) or dut.cycle > ref.cycle:
+                print("FAIL [timing] beats accepted later than on the reference: {}".format(gain))
+                ok = False
+            msg += ", beats accepted {}..{} cycles earlier".format(min(gain), max(gain))
+    return ok, msg
 
 def main():
     jobs = []
     profiles = {
         "default"     : Stalls(),
-        "cmd-always"  : Stalls(cmd_ready=100),                 # ready high also without valid.
-        "cmd-rare"    : Stalls(cmd_ready=20),
-        "fast-read"   : Stalls(rd_lat=(1, 1), rd_gap=0),       # data of beat k back while commands are still issued.
-        "slow-read"   : Stalls(rd_lat=(5, 12), rd_gap=60),
+        "no-gaps"     : Stalls(idle=0, gap=0),                     # back to back beats: FIFOs fill up.
+        "slow-memory" : Stalls(cmd_ready=20, wdata_ready=20, idle=0, gap=5),
+        "fast-memory" : Stalls(cmd_ready=100, wdata_ready=100, rd_lat=(1, 1), rd_gap=0),
+        "long-gaps"   : Stalls(gap=75, idle=60),                   # FIFOs run empty inside bursts.
         "ideal"       : Stalls(**IDEAL),
     }
-    # Random traffic, read heavy, 1:1 bridge.
+    # Random traffic, write heavy, 1:1 bridge, bursts up to 1.5 x the FIFO depth.
     for pname, st in profiles.items():
         for seed in range(5):
             cfg = Cfg()
-            ops = gen_ops(cfg, random.Random(1000 + seed), 50, max_burst=24, kinds="wrrr")
-            jobs.append(("1:1 " + pname, cfg, st, seed, ops))
+            ops = gen_ops(cfg, random.Random(1000 + seed), 50, max_burst=24, kinds="wwr")
+            jobs.append((("" if pname == "ideal" else "1:1 ") + pname, cfg, st, seed, ops, 1))
+    # Small FIFOs (filled by the beat accepted in START plus the following ones).
+    for mbl in [2, 3, 4]:
+        for seed in range(4):
+            cfg = Cfg(mbl=mbl)
+            ops = gen_ops(cfg, random.Random(1500 + seed), 40, max_burst=3*mbl, kinds="wwr")
+            st  = [Stalls(), Stalls(idle=0, gap=0), Stalls(cmd_ready=25, wdata_ready=25), Stalls(**IDEAL)][seed]
+            jobs.append((("ideal " if seed == 3 else "") + "fifo-depth-{}".format(mbl), cfg, st, seed, ops, 1))
     # Other configurations.
     cfgs = {
-        "fifo-depth-2"   : (Cfg(mbl=2), 1),
-        "fifo-depth-4"   : (Cfg(mbl=4), 1),
-        "base"           : (Cfg(base=0x10000000), 1),
-        "narrow-port"    : (Cfg(base=0x10000000, avl_adr=30, port_adr=24), 1),
-        "narrow-avalon"  : (Cfg(base=0x4000, avl_adr=20, port_adr=30), 1),
-        "down 32->16"    : (Cfg(aw=32, pw=16, port_adr=32), 1),
-        "down 64->32"    : (Cfg(aw=64, pw=32, base=0x10000000), 1),
-        "down 32->8"     : (Cfg(aw=32, pw=8), 1),
+        "base"           : Cfg(base=0x10000000),
+        "narrow-port"    : Cfg(base=0x10000000, avl_adr=30, port_adr=24),
+        "narrow-avalon"  : Cfg(base=0x4000, avl_adr=20, port_adr=30),
+        "down 32->16"    : Cfg(aw=32, pw=16, port_adr=32),
+        "down 64->32"    : Cfg(aw=64, pw=32, base=0x10000000),
+        "down 32->8"     : Cfg(aw=32, pw=8),
     }
-    for cname, (cfg, align) in cfgs.items():
+    for cname, cfg in cfgs.items():
         for seed in range(3):
-            ops = gen_ops(cfg, random.Random(2000 + seed), 30, max_burst=12, align=align, kinds="wrrr")
-            jobs.append((cname, cfg, Stalls(), seed, ops))
-    # Every read burst length (after filling the memory with a write burst).
-    for seed, lens in enumerate([range(2, 12), range(12, 20), [20, 33, 64], [255, 2, 128]]):
+            ops = gen_ops(cfg, random.Random(2000 + seed), 30, max_burst=12, kinds="wwr")
+            jobs.append((cname, cfg, Stalls(), seed, ops, 1))
+    # burst_increment parameter (address of the second beat is computed at latch time now).
+    for seed in range(2):
+        cfg = Cfg(kwargs=dict(burst_increment=2), span=40)
+        ops = gen_ops(cfg, random.Random(2500 + seed), 30, max_burst=12, kinds="wwr")
+        jobs.append(("increment-2", cfg, Stalls(), seed, ops, 2))
+    # Every write burst length 2..20 and a few long ones, every beat with its own byte enables,
+    # each burst read back.
+    for seed, lens in enumerate([range(2, 9), range(9, 15), range(15, 21), [33, 64, 100], [255, 2, 255]]):
         cfg = Cfg(span=300)
         rng = random.Random(3000 + seed)
-        ops = [("w", 0, [(rng.getrandbits(32), 15) for _ in range(40)])]
+        ops = []
         for n in lens:
-            ops.append(("r", rng.randrange(30), n))
-            if rng.randrange(2):
-                ops.append(("r", rng.randrange(30), 1))
-        jobs.append(("read-lengths", cfg, Stalls(idle=10), seed, ops))
-        jobs.append(("read-lengths cmd100", cfg, Stalls(idle=10, cmd_ready=100, rd_lat=(1, 2), rd_gap=10), seed, ops))
+            a = rng.randrange(40)
+            ops.append(("w", a, [(rng.getrandbits(32), rng.choice([15, 15, rng.randrange(16)])) for _ in range(n)]))
+            ops.append(("r", a, n))
+        for st_name, st in [("", Stalls()), (" no-gaps", Stalls(idle=0, gap=0, wdata_ready=40))]:
+            jobs.append(("write-lengths" + st_name, cfg, st, seed, ops, 1))
+    # Wrap-around of the address at the top of the native address space inside a burst.
+    for seed in range(2):
+        cfg = Cfg(avl_adr=12, port_adr=12)
+        rng = random.Random(3500 + seed)
+        ops = []
+        for a in [4093, 4090, 4095]:
+            ops.append(("w", a, [(rng.getrandbits(32), 15) for _ in range(6)]))
+        jobs.append(("address-wrap", cfg, Stalls(), seed, ops, 1))
     # Up-converter (ideal memory timing).
     for seed in range(2):
         cfg = Cfg(aw=32, pw=64)
         jobs.append(("up 32->64", cfg, Stalls(**dict(IDEAL, idle=30*seed, gap=30*seed)), seed,
-            upconverter_ops(random.Random(seed))))
+            upconverter_ops(random.Random(seed)), 1))
     ok = run_jobs(job, jobs)
     print("PASS" if ok else "FAIL")
     return 0 if ok else 1
